@@ -925,7 +925,17 @@ fn observe_target(t: &TargetProc, settle_ms: u64) -> Value {
     }
     let c0 = t.counters(nslots);
     std::thread::sleep(Duration::from_millis(12));
-    let c1 = t.counters(nslots);
+    let mut c1 = t.counters(nslots);
+    // a heartbeat thread that is merely waiting for a CPU (a busy machine) has not advanced yet: give it up to a second before
+    // calling it not running (a thread that IS stopped or traced shows that in its state / TracerPid, looked at below)
+    let beating: Vec<usize> = t.report["threads"].as_array().map(|a| a.iter().enumerate().filter(|(_, x)| matches!(x["mode"].as_str(), Some("heartbeat") | Some("vfork"))).map(|(i, _)| i).collect()).unwrap_or_default();
+    for _ in 0..100 {
+        if beating.iter().all(|&i| c1.get(i).map(|c| c[0]) > c0.get(i).map(|c| c[0]) || c1.get(i).map(|c| c[4] != 0).unwrap_or(true)) {
+            break;
+        }
+        std::thread::sleep(Duration::from_millis(10));
+        c1 = t.counters(nslots);
+    }
     let st2: Vec<(i32, Value)> = t.tids().iter().map(|tid| (*tid, target::task_status(t.pid, *tid))).collect();
     json!({
         "tasks": st2.iter().map(|(tid, s)| json!({"tid": tid, "state": s["state"], "tracer": s["tracer"], "sigpnd": s["sigpnd"], "shdpnd": s["shdpnd"]})).collect::<Vec<_>>(),
